@@ -27,7 +27,7 @@ def _sum_into(agg, d):
         if isinstance(v, bool):
             continue
         if isinstance(v, (int, float)):
-            agg[k] = agg.get(k, 0) + v
+            agg[k] = max(agg.get(k, 0), v) if str(k).endswith("_max") else agg.get(k, 0) + v
         elif isinstance(v, dict):
             _sum_into(agg.setdefault(k, {}), v)
 
